@@ -1,7 +1,7 @@
 """C13 - time is frozen per step; after() and idle() mean what they say (DESIGN.md section 4, C13)."""
 from fractions import Fraction as F
 
-from sim.chart import Cfg, swarm, gen_spec, HIST
+from sim.chart import Cfg, swarm, gen_spec, HIST, tid
 from sim.engine import Result, Abandon, fp
 from sim.probes import SimClock, SkewClock, IntClock
 from sim.semrun import Sim, TICK, legal_or_abandon, materialise
@@ -12,7 +12,7 @@ LEVEL = 'exploration'
 BUDGET = {'quick': 20, 'thorough': 240}
 STREAM_ORDER = ['ops', 'guards', 'mat', 'chart', 'cfg']
 RULE = ('well-formed chart drawn per run whose guards are P.tguard(i, event, after(d), idle(d2), time), whose states carry invariants '
-        'P.tcond(j, after(d), idle(d2), time), half of whose states carry a postcondition P.tpost(j, after(d), time) and whose entry/exit/action code logs the `time` variable; contract checking is on. The '
+        'P.tcond(j, after(d), idle(d2), time), half of whose states carry a postcondition P.tpost(j, after(d), time), half of whose transitions carry an invariant P.ttinv(i, idle(d), time) and whose entry/exit/action code logs the `time` variable; contract checking is on. The '
         'interpreter clock is a SkewClock (a larger value at every read) in half of the runs and a SimClock moved from inside probe calls '
         '(i.e. during the step) in the other half - half of those count integer ticks from 2**62+3, which no double represents -; advances are drawn from {0, exactly d, d -/+ one tick, large}. Every time observation '
         'of a step must equal the first clock value read by execute_once, and every logged after/idle value must equal the exact '
@@ -22,7 +22,7 @@ RULE = ('well-formed chart drawn per run whose guards are P.tguard(i, event, aft
 COMPONENTS = {'real': common.REAL + ['sismic.clock.Clock (abstract base)'],
               'stub': ['interpreter clock: SkewClock / SimClock advanced by probe side effects inside a step'] + common.STUB[1:]}
 ASSUMPTIONS = common.ASSUME + ['times are dyadic rationals, so float comparisons are exact',
-                               'time predicates are exercised in guards, state invariants and (after() only) state postconditions (transition contracts evaluate idle() around the idle-stamp update, which the property does not pin down)']
+                               'time predicates are exercised in guards, state invariants and (after() only) state postconditions, and idle() in transition invariants for the evaluation that precedes the action (after the action the property does not say whether the transition has fired yet)']
 LEVEL_TEXT = ('seeded exploration of clock trajectories including movement during a step (fault), with an exact stamp model; every '
               'time observation of every step is asserted')
 LEVEL_NOTE = 'trusted: the stamp bookkeeping in sim.semrun.Sim.step (entry/idle from the real entered lists and transitions)'
@@ -42,6 +42,10 @@ def run(ch, tier):
     for k_, n_ in enumerate(sorted(sp.states)):
         if sp.states[n_].kind not in HIST and tp.flag(1, 2):
             sp.states[n_].tpost = [(9000 + k_, tp.pick([0, 1, 2, 0.5]))]
+    # transition invariants that use idle(): the evaluation that precedes the action sees the source state as the guard did
+    for t in sp.trans:
+        if tp.flag(1, 2):
+            t.tinv_idle = tp.pick([0, 1, 2, 0.5])
     scale = 1
     if bigint:
         # an integer tick counter far beyond 2**53: every duration of the chart is expressed in ticks (1/64 time unit)
@@ -52,6 +56,8 @@ def run(ch, tier):
         for s_ in sp.states.values():
             s_.tinv = [(j, None if a is None else int(a * 64), None if i is None else int(i * 64)) for j, a, i in s_.tinv]
             s_.tpost = [(j, int(a * 64)) for j, a in s_.tpost]
+        for t in sp.trans:
+            t.tinv_idle = None if t.tinv_idle is None else int(t.tinv_idle * 64)
     clock = SkewClock() if skew else IntClock() if bigint else SimClock()
     sim = Sim(sp, clock=clock, ignore_contract=False, statechart=materialise(sp, ch, res))
     moves = [0]
@@ -159,6 +165,30 @@ def run(ch, tier):
                 return res.fail('after', 'after() in the postconditions of the states left by this step evaluated to %r (condition id, value), '
                                 'the entry stamps prescribe %r' % (got_tp, want_tp), **ctx)
             res.stats['after_in_state_postconditions_checked'] += len(want_tp)
+            # idle() in the invariants of the transitions this step fired: the first of the two evaluations (before the action)
+            # still sees the stamp the guard saw - the transition has not fired yet; the second one (after the action) is
+            # not pinned down by the property
+            stamp = dict(r.idle_before)
+            got_ti = [e for e in r.log if e[0] == 'ttinv']
+            k_ = 0
+            for m in r.ms.steps:
+                if m.transition is not None:
+                    t = sp.trans[tid(m.transition)]
+                    if t.tinv_idle is not None:
+                        if k_ + 1 >= len(got_ti) or got_ti[k_][1] != t.i or got_ti[k_ + 1][1] != t.i:
+                            return res.fail('idle', 'transition t%d fired but its invariant was not evaluated once before and once after the action: %r' % (t.i, got_ti), **ctx)
+                        first = got_ti[k_]
+                        want = (T - stamp[t.src]) >= F(t.tinv_idle)
+                        if F(first[3]) != T:
+                            return res.fail('time-variable', 'an invariant of t%d saw time=%r during a step whose time is %r' % (t.i, first[3], float(T)), **ctx)
+                        if first[2] != want:
+                            return res.fail('idle', 'invariant of t%d, evaluated before its action: idle(%r) = %r at time %r; %s last fired a transition / was entered at %r' % (
+                                t.i, t.tinv_idle, first[2], float(T), t.src, float(stamp[t.src])), **ctx)
+                        res.stats['idle_in_transition_invariant_checked'] += 1
+                        k_ += 2
+                    stamp[t.src] = T
+                for sname in m.entered_states:
+                    stamp[sname] = T
         if nontriv:
             res.nontrivial.add(fp((cfp, float(T), nontriv)))
             if res.sample is None:
